@@ -15,39 +15,42 @@ theorem rtW (c : Codec) :
     ∀ (m : Ms) (ws : List W), Ms.all (nodeOk c) m = true →
       fromTreeI c (toTreeW c (ws.map W.char) m) = wrapAll c ws (.ok m)
   | .tru, ws, _ => by
-    rw [toTreeW]; exact fromTreeI_core c ws .tru [] .tru (by decide) rfl
+    rw [toTreeW]; exact fromTreeI_core c ws .tru [] .tru rfl
   | .fls, ws, _ => by
-    rw [toTreeW]; exact fromTreeI_core c ws .fls [] .fls (by decide) rfl
+    rw [toTreeW]; exact fromTreeI_core c ws .fls [] .fls rfl
   | .pkK k, ws, hall => by
     have ha := ((nodeOk_iff c _).1 (by simpa [Ms.all] using hall)).2.2.2.2
     simp only [atomsOk, beq_iff_eq] at ha
     rw [toTreeW]
-    exact fromTreeI_core c ws .pk_k _ _ (by decide) (termParent_leaf _ _ _ k ha)
+    exact fromTreeI_core c ws .pk_k _ _ (termParent_leaf _ _ _ k ha)
   | .pkH k, ws, hall => by
     have ha := ((nodeOk_iff c _).1 (by simpa [Ms.all] using hall)).2.2.2.2
     simp only [atomsOk, beq_iff_eq] at ha
     rw [toTreeW]
-    exact fromTreeI_core c ws .pk_h _ _ (by decide) (termParent_leaf _ _ _ k ha)
+    exact fromTreeI_core c ws .pk_h _ _ (termParent_leaf _ _ _ k ha)
   | .rawPkH h, ws, hall => by
-    simp [Ms.all, nodeOk, localOk] at hall
+    have ha := ((nodeOk_iff c _).1 (by simpa [Ms.all] using hall)).2.2.2.2
+    simp only [atomsOk, beq_iff_eq] at ha
+    rw [toTreeW]
+    exact fromTreeI_core c ws .rawPkh _ _ (termParent_leaf _ _ _ h ha)
   | .after n, ws, hall => by
     rw [toTreeW]
     have hn : 1 ≤ n ∧ n ≤ 2147483647 := by
       have := ((nodeOk_iff c _).1 (by simpa [Ms.all] using hall)).2.2.2.1
       simpa [localOk] using this
-    exact fromTreeI_core c ws .after _ _ (by decide) (lockParent_leaf n _ hn)
+    exact fromTreeI_core c ws .after _ _ (lockParent_leaf n _ hn)
   | .older n, ws, hall => by
     rw [toTreeW]
     have hn : 1 ≤ n ∧ n ≤ 2147483647 := by
       have := ((nodeOk_iff c _).1 (by simpa [Ms.all] using hall)).2.2.2.1
       simpa [localOk] using this
-    exact fromTreeI_core c ws .older _ _ (by decide) (lockParent_leaf n _ hn)
+    exact fromTreeI_core c ws .older _ _ (lockParent_leaf n _ hn)
   | .hash kind h, ws, hall => by
     have ha := ((nodeOk_iff c _).1 (by simpa [Ms.all] using hall)).2.2.2.2
     simp only [atomsOk, beq_iff_eq] at ha
     rw [toTreeW]
     cases kind <;>
-      exact fromTreeI_core c ws _ _ _ (by decide) (termParent_leaf _ _ _ h ha)
+      exact fromTreeI_core c ws _ _ _ (termParent_leaf _ _ _ h ha)
   | .alt x, ws, hall => by
     simp only [Ms.all, Bool.and_eq_true] at hall
     rw [toTreeW]; exact wrap_step c ws .a x hall.1 (rtW c x (ws ++ [.a]) hall.2)
@@ -70,17 +73,16 @@ theorem rtW (c : Codec) :
     simp only [Ms.all, Bool.and_eq_true] at hall
     have ih := rtW c x (ws ++ [.c]) hall.2
     rw [toTreeW]
-    rcases sugarCheck_cases c x with hnone | ⟨k, rfl⟩ | ⟨k, rfl⟩ | ⟨h, rfl⟩
+    rcases sugarCheck_cases c x with hnone | ⟨k, rfl⟩ | ⟨k, rfl⟩
     · rw [hnone]; exact wrap_step c ws .c x hall.1 ih
     · have ha := ((nodeOk_iff c _).1 (by simpa [Ms.all] using hall.2)).2.2.2.2
       simp only [atomsOk, beq_iff_eq] at ha
       simp only [sugarCheck]
-      exact fromTreeI_core c ws .pk _ _ (by decide) (termParent_leaf _ _ _ k ha)
+      exact fromTreeI_core c ws .pk _ _ (termParent_leaf _ _ _ k ha)
     · have ha := ((nodeOk_iff c _).1 (by simpa [Ms.all] using hall.2)).2.2.2.2
       simp only [atomsOk, beq_iff_eq] at ha
       simp only [sugarCheck]
-      exact fromTreeI_core c ws .pkh _ _ (by decide) (termParent_leaf _ _ _ k ha)
-    · have := hall.2; simp [Ms.all, nodeOk, localOk] at this
+      exact fromTreeI_core c ws .pkh _ _ (termParent_leaf _ _ _ k ha)
   | .andV l r, ws, hall => by
     simp only [Ms.all, Bool.and_eq_true] at hall
     have ihl := rtW c l [] hall.1.2
@@ -91,7 +93,7 @@ theorem rtW (c : Codec) :
     · subst hr; simp only [if_true]
       exact wrap_step c ws .t l hall.1.1 ihw
     · simp only [hr, if_false]
-      refine fromTreeI_core c ws .and_v _ _ (by decide) ?_
+      refine fromTreeI_core c ws .and_v _ _ ?_
       simp only [parseCore, fromTreeL_two]
       rw [show ([] : List Char) = ([] : List W).map W.char from rfl, ihl, ihr]
       exact binary_ok c l r .andV (mk_ok c _ hall.1.1)
@@ -100,7 +102,7 @@ theorem rtW (c : Codec) :
     have ihl := rtW c l [] hall.1.2
     have ihr := rtW c r [] hall.2
     rw [toTreeW]
-    refine fromTreeI_core c ws .and_b _ _ (by decide) ?_
+    refine fromTreeI_core c ws .and_b _ _ ?_
     simp only [parseCore, fromTreeL_two]
     rw [show ([] : List Char) = ([] : List W).map W.char from rfl, ihl, ihr]
     exact binary_ok c l r .andB (mk_ok c _ hall.1.1)
@@ -109,7 +111,7 @@ theorem rtW (c : Codec) :
     have ihl := rtW c l [] hall.1.2
     have ihr := rtW c r [] hall.2
     rw [toTreeW]
-    refine fromTreeI_core c ws .or_b _ _ (by decide) ?_
+    refine fromTreeI_core c ws .or_b _ _ ?_
     simp only [parseCore, fromTreeL_two]
     rw [show ([] : List Char) = ([] : List W).map W.char from rfl, ihl, ihr]
     exact binary_ok c l r .orB (mk_ok c _ hall.1.1)
@@ -118,7 +120,7 @@ theorem rtW (c : Codec) :
     have ihl := rtW c l [] hall.1.2
     have ihr := rtW c r [] hall.2
     rw [toTreeW]
-    refine fromTreeI_core c ws .or_d _ _ (by decide) ?_
+    refine fromTreeI_core c ws .or_d _ _ ?_
     simp only [parseCore, fromTreeL_two]
     rw [show ([] : List Char) = ([] : List W).map W.char from rfl, ihl, ihr]
     exact binary_ok c l r .orD (mk_ok c _ hall.1.1)
@@ -127,7 +129,7 @@ theorem rtW (c : Codec) :
     have ihl := rtW c l [] hall.1.2
     have ihr := rtW c r [] hall.2
     rw [toTreeW]
-    refine fromTreeI_core c ws .or_c _ _ (by decide) ?_
+    refine fromTreeI_core c ws .or_c _ _ ?_
     simp only [parseCore, fromTreeL_two]
     rw [show ([] : List Char) = ([] : List W).map W.char from rfl, ihl, ihr]
     exact binary_ok c l r .orC (mk_ok c _ hall.1.1)
@@ -149,7 +151,7 @@ theorem rtW (c : Codec) :
       · subst hl; simp only [hr, if_false, if_true]
         exact wrap_step c ws .l r hall.1.1 ihlr
       · simp only [hr, hl, if_false]
-        refine fromTreeI_core c ws .or_i _ _ (by decide) ?_
+        refine fromTreeI_core c ws .or_i _ _ ?_
         simp only [parseCore, fromTreeL_two]
         rw [show ([] : List Char) = ([] : List W).map W.char from rfl, ihl, ihr]
         exact binary_ok c l r .orI (mk_ok c _ hall.1.1)
@@ -161,12 +163,12 @@ theorem rtW (c : Codec) :
     rw [toTreeW]
     by_cases hz : z = .fls
     · subst hz; simp only [if_true]
-      refine fromTreeI_core c ws .and_n _ _ (by decide) ?_
+      refine fromTreeI_core c ws .and_n _ _ ?_
       simp only [parseCore, fromTreeL_two]
       rw [show ([] : List Char) = ([] : List W).map W.char from rfl, iha, ihb]
       exact binary_ok c a b (fun x y => .andOr x y .fls) (mk_ok c _ hall.1.1.1)
     · simp only [hz, if_false]
-      refine fromTreeI_core c ws .andor _ _ (by decide) ?_
+      refine fromTreeI_core c ws .andor _ _ ?_
       simp only [parseCore, fromTreeL_three]
       rw [show ([] : List Char) = ([] : List W).map W.char from rfl, iha, ihb, ihz]
       simp [wrapAll, mk_ok c _ hall.1.1.1]
@@ -176,7 +178,7 @@ theorem rtW (c : Codec) :
     have hloc := ((nodeOk_iff c _).1 hall.1).2.2.2.1
     simp only [localOk, decide_eq_true_eq] at hloc
     rw [toTreeW]
-    refine fromTreeI_core c ws .thresh _ _ (by decide) ?_
+    refine fromTreeI_core c ws .thresh _ _ ?_
     simp only [parseCore]
     rw [threshK_ok 0 k _ hloc.1 (by rw [toTreeList_length]; exact hloc.2.1) hloc.2.2 (Or.inl rfl)]
     simp only [fromTreeL, List.tail_cons, ihxs, collect_map_ok, ofList_toList]
@@ -188,7 +190,7 @@ theorem rtW (c : Codec) :
     simp only [atomsOk] at hat
     simp only [localOk, decide_eq_true_eq] at hloc
     rw [toTreeW]
-    refine fromTreeI_core c ws .multi _ _ (by decide) ?_
+    refine fromTreeI_core c ws .multi _ _ ?_
     simp only [parseCore]
     exact keysThresh_ok c 20 k ks .multi hloc.1 hloc.2.1 hloc.2.2 (by omega) hat (mk_ok c _ hn)
   | .sortedMulti k ks, ws, hall => by
@@ -198,7 +200,7 @@ theorem rtW (c : Codec) :
     simp only [atomsOk] at hat
     simp only [localOk, decide_eq_true_eq] at hloc
     rw [toTreeW]
-    refine fromTreeI_core c ws .sortedmulti _ _ (by decide) ?_
+    refine fromTreeI_core c ws .sortedmulti _ _ ?_
     simp only [parseCore]
     exact keysThresh_ok c 20 k ks .sortedMulti hloc.1 hloc.2.1 hloc.2.2 (by omega) hat (mk_ok c _ hn)
   | .multiA k ks, ws, hall => by
@@ -208,7 +210,7 @@ theorem rtW (c : Codec) :
     simp only [atomsOk] at hat
     simp only [localOk, decide_eq_true_eq] at hloc
     rw [toTreeW]
-    refine fromTreeI_core c ws .multi_a _ _ (by decide) ?_
+    refine fromTreeI_core c ws .multi_a _ _ ?_
     simp only [parseCore]
     exact keysThresh_ok c 999 k ks .multiA hloc.1 hloc.2.1 hloc.2.2 (by omega) hat (mk_ok c _ hn)
   | .sortedMultiA k ks, ws, hall => by
@@ -218,7 +220,7 @@ theorem rtW (c : Codec) :
     simp only [atomsOk] at hat
     simp only [localOk, decide_eq_true_eq] at hloc
     rw [toTreeW]
-    refine fromTreeI_core c ws .sortedmulti_a _ _ (by decide) ?_
+    refine fromTreeI_core c ws .sortedmulti_a _ _ ?_
     simp only [parseCore]
     exact keysThresh_ok c 999 k ks .sortedMultiA hloc.1 hloc.2.1 hloc.2.2 (by omega) hat (mk_ok c _ hn)
 theorem rtL (c : Codec) :
